@@ -96,6 +96,8 @@ def strategy(tier):
       'outer': st.one_of(st.none(), st.none(), mask),
       'inner': st.one_of(st.none(), st.none(), mask),
       'how': st.sampled_from(['arg', 'scope']),
+      # a permission scope that was entered and left again (normally or by an exception) before the program runs
+      'left': st.one_of(st.none(), st.none(), st.fixed_dictionaries({'mask': st.one_of(mask, st.just(255)), 'exc': st.booleans()})),
   })
 
 
@@ -394,6 +396,17 @@ def execute(case):
     with contextlib.ExitStack() as es:
       if outer is not None:
         es.enter_context(pg.coding.permission(to_perm(outer)))
+      left = case.get('left')
+      if left is not None:
+        if not isinstance(left, dict) or isinstance(left.get('mask'), bool) or not isinstance(left.get('mask'), int) \
+            or not 0 <= left['mask'] <= 255:
+          raise core.InvalidCase(case)
+        try:
+          with pg.coding.permission(to_perm(left['mask'])):
+            if left.get('exc'):
+              raise KeyError('leave the scope by an exception')
+        except KeyError:
+          pass
       if inner is not None:
         es.enter_context(pg.coding.permission(to_perm(inner)))
       if how == 'scope':
